@@ -147,6 +147,8 @@ def replay_eval(run, code, key, tvs):
         f = code.eval_fn(n, dim, m, mode)
         if not built_ok(run, f, fn, tvs[0]):
             continue
+        if mode in ("eval", "deriv(m)") and not (mode == "deriv(m)" and m == 0):
+            numeric_paths(run, code, key, tvs)
         (Y,) = batch_call(f, [Pf, T[None], t[None]])
         run.count("evaluations", len(tvs))
         ok, e = close(Y, E)
@@ -163,6 +165,35 @@ def replay_eval(run, code, key, tvs):
             else:
                 run.violation(f"Bezier.deriv/time_derivative/{mode}/{c}",
                               f"derivative curve differs from the exact time derivative (e.g. degree {n}, order {m})", data)
+
+
+def numeric_paths(run, code, key, tvs, limit=8):
+    """the same curves built from NUMBERS, in the container types a user has at hand (integer numpy array, float numpy
+    array, DM, SX constants), time and duration as plain floats: every way of handing over the same control points
+    must give the same curve"""
+    n, dim, m = key
+    step = max(1, len(tvs) // limit)
+    for tv in tvs[::step][:limit]:
+        Pm = np.array([[tv["P"][r][k] for k in range(n + 1)] for r in range(dim)], float)
+        T, t = float(q(tv["T"])), float(q(tv["t"]))
+        want = np.array(qv(tv["exp"]), float).flatten()
+        integral = bool(np.all(Pm == np.round(Pm)))
+        variants = [("numpy_float", Pm.copy()), ("DM", ca.DM(Pm)), ("SX_const", ca.SX(ca.DM(Pm)))]
+        if integral:
+            variants.insert(0, ("numpy_int", Pm.astype(np.int64)))
+        for vname, P in variants:
+            try:
+                C = code.bz.Bezier(P, T)
+                if m:
+                    C = C.deriv(m)
+                got = np.array(ca.DM(ca.densify(ca.SX(C.eval(t))))).flatten()
+            except Exception as ex:     # noqa
+                run.spec_drift(f"Bezier/numeric_container:{vname}/raises:{type(ex).__name__}", "this container type is not accepted for control points")
+                continue
+            run.count("numeric_container_evaluations")
+            if got.shape != want.shape or not np.all(np.abs(got - want) <= 1e-9 * np.maximum(1.0, np.abs(want))):
+                run.violation(f"Bezier.{'deriv' if m else 'eval'}/numeric_container:{vname}", "the curve built from numeric control points in this container "
+                              "differs from the Bernstein polynomial / exact derivative", {"tv": tv, "container": vname, "got": got.tolist(), "expected": want.tolist()})
 
 
 def replay_traj(run, code, n, tvs):
@@ -272,6 +303,8 @@ def nontrivial(tv):
 def main():
     tier = sys.argv[1] if len(sys.argv) > 1 else "quick"
     run = Run(PID, tier)
+    from harness.lie import touch_all as _touch_all
+    _touch_all()        # first uses of the Lie API happen BEFORE the models are derived (see harness/lie.py)
     try:        # every exported trajectory function once by position and by its documented argument names
         from harness import cas as _cas
         from cyecca.models import bezier as _bz
